@@ -59,6 +59,9 @@ CHECKS = {
  "C18": ("fault_enumeration", "scripted shared transport around a real Demux: per-key sequence oracle on unique ids, announcement count, shared-writer equality; Cancel/Stop injected after each step and, by rendezvous hook, exactly between lookup and hand-off, concurrent with readers and a hammering writer; child-process crash attribution; final-state termination oracle; RPC workloads through fan-in + Demux + Serve",
          "Per key the logical connection reads exactly the fed subsequence in order, is announced once per creation, and every envelope written on it reaches the shared transport unchanged exactly once; Cancel(key) and Stop at every step (also inside the hand-off window, also under a concurrent writer) must neither crash the process nor leave a Read/Write/Run blocked at the final state; C01/C02 workloads through several logical clients and one Server must pass their own oracles.",
          "Consumers always drain (a consumer that never reads blocks Run by design, except in the directed Stop case); envelopes in flight at a Cancel may be lost with the cancelled connection.", "DESIGN.md 2/C18"),
+ "C19": ("exploration", "round-trip equality monitors over a real loopback WebSocket, the channel transport and HTTP (two instances over loopback); differential raw-input check against a reference proto.Unmarshal; ServeHTTP driven through httptest under recover; clockwork fake clock placing the idle tick around an in-progress delivery with a rendezvous hook",
+         "Every generated envelope value (all 32 presence combinations, ids across uint64, bodies to 1 MiB, non-ASCII, repeated fields) read equal and in order on each shipped transport; non-envelope input (text frames, truncated/bit-flipped/random bytes, body-less / header-less / source-less / unmappable HTTP requests) rejected and never delivered; blocked Read/Write return after cancel; the HTTP idle cleaner never panics a concurrent ServeHTTP and fails idle readers.",
+         "Kernel I/O paths use wall-clock watchdogs (WebSocket expiry = inconclusive); channel-transport context checks are decided at final states.", "DESIGN.md 2/C19"),
 }
 NOT_YET = "check not built yet in this round (runtime-monitoring design in DESIGN.md section 2); will be claimed once its monitor exists"
 
